@@ -20,6 +20,11 @@ type target struct {
 	tr   *triple
 	mg   *maskGen
 	base string // "C14/<server>/<X>"
+	// corrupting holds the operation classes (guard classes) found to change the register although they are reads.
+	// Like a class that crashed, such a class is not used again on this target in this process: every later
+	// disagreement would be a consequence of the damaged server state, reported under whichever clause trips first.
+	// The first history of every triple (run by every worker, with its directed part) is where this is found.
+	corrupting map[string]bool
 }
 
 func (t *target) hint(p string) []string { return t.e.hints[t.tr.x+"."+p] }
@@ -68,6 +73,10 @@ func (h *histCtx) violate(clause, msg string) {
 // guard wraps r.Guard: the key names what is reported if the process dies inside the call (a panic on a handler
 // goroutine of the wrapper). In replay mode of another key the call runs unguarded.
 func (h *histCtx) guard(class string) bool {
+	if h.t.corrupting[class] {
+		h.r.Count("skipped-after-read-corruption", 1)
+		return false
+	}
 	key := h.t.base + "/crash/" + class
 	if h.r.Only != "" && !strings.HasPrefix(key, h.r.Only) {
 		return true
@@ -260,6 +269,10 @@ func (h *histCtx) checkReadOnly(key string, before proto.Message, op, what strin
 	if !sameState(before, beforeCode, after, codeOf(aerr)) {
 		h.logf("Get(key=%q) -> %s %s", key, codeOf(aerr), vk.JSON(after))
 		h.violate("read-changed-value/"+op, fmt.Sprintf("%s changed what the full Get returns, from %s to %s %s", what, vk.JSON(before), codeOf(aerr), vk.JSON(after)))
+		if h.t.corrupting == nil {
+			h.t.corrupting = map[string]bool{}
+		}
+		h.t.corrupting[map[string]string{"get-masked": "get-masked", "pull": "pull-open", "pull-masked": "pull-open-masked"}[op]] = true
 	}
 }
 
@@ -614,9 +627,10 @@ func (h *histCtx) randomUpdate(forceMask string) {
 	}
 }
 
-// maskProbe sends two Updates with the same single-path update mask [A]; both also carry a new value for another
-// top-level field B (different both times). If the stored B follows the request's B both times, the server
-// ignores update_mask. Each shot is also an ordinary Update for the other clauses.
+// maskProbe sends two Updates with the same single-path update mask [A]: the first changes A, the second repeats
+// A's stored value; both also carry a new value for another top-level field B (different both times). If the stored
+// B follows the request's B both times, the server ignores update_mask. Each shot is also an ordinary Update for
+// the other clauses.
 func (h *histCtx) maskProbe() {
 	tr, rng := h.t.tr, h.rng
 	ks := h.keys()
@@ -653,7 +667,12 @@ func (h *histCtx) maskProbe() {
 			return
 		}
 		v := proto.Clone(cur).ProtoReflect()
-		setDifferent(rng, v, a, h.t.hint, nil)
+		if shot == 0 {
+			setDifferent(rng, v, a, h.t.hint, nil)
+		}
+		// second shot: A keeps the value the first shot wrote, so with an honoured mask the write is a no-op and B
+		// cannot move, whatever the model derives from A (a derived B that happens to equal the first request's B
+		// is thereby told apart from an ignored mask)
 		bval := setDifferent(rng, v, b, h.t.hint, bSeen)
 		if bval == "" {
 			return
